@@ -36,6 +36,8 @@ const prelude = `(set-option :produce-models true)
 (declare-fun sbyte (Int Int) Int)
 (declare-fun sprefix (Int Int) Bool)
 (declare-fun cond_lock (Int) Int)
+(assert (forall ((a Int) (b Int) (p Int)) (! (=> (sprefix a p) (sprefix (scat a b) p)) :pattern ((sprefix (scat a b) p)))))
+(assert (forall ((a Int) (b Int) (p Int)) (! (=> (and (>= (slen a) (slen p)) (not (sprefix a p))) (not (sprefix (scat a b) p))) :pattern ((sprefix (scat a b) p)))))
 (declare-fun ix (Int Int) Int)
 (assert (forall ((o Int) (i Int)) (! (= (ix o i) (+ o i)) :pattern ((ix o i)))))
 (define-fun nil_slice () Slice (mk_slice 0 0 0 0))
